@@ -298,6 +298,7 @@ func streamThrough(h *handler.Handler, input []byte) []handler.Message {
 	go func() {
 		for m := range out {
 			msgs = append(msgs, m)
+			endless(len(msgs), len(input), "stream handler")
 			tick()
 		}
 		close(done)
